@@ -1,5 +1,6 @@
 import GoRedisModel.Model.Wire
 import GoRedisModel.Model.ParserImpl
+import GoRedisModel.Model.Show
 /-! Line-protocol driver: one case per input line, one canonical result per output line.
 Built as the core-only executable `modeldriver`; the definitions it runs are the ones the theorems are about. -/
 open GoRedis
@@ -28,6 +29,85 @@ def afterBar : List String → List String
   | "|" :: ts => ts
   | _ :: ts => afterBar ts
 
+
+/-- split a token list at "|" -/
+def splitBar : List String → List (List String)
+  | [] => [[]]
+  | t :: ts =>
+    match splitBar ts with
+    | [] => [[t]]
+    | s :: ss => if t == "|" then [] :: s :: ss else (t :: s) :: ss
+
+def splitSemi : List String → List (List String)
+  | [] => [[]]
+  | t :: ts =>
+    match splitSemi ts with
+    | [] => [[t]]
+    | s :: ss => if t == ";" then [] :: s :: ss else (t :: s) :: ss
+
+def parseResult (ts : List String) : Option HRes :=
+  match ts with
+  | "r" :: rest => (parseMsgToks rest).map fun (m, _) => { msg := m }
+  | ["e", h] => some { err := some (unhex h) }
+  | "re" :: h :: rest => (parseMsgToks rest).map fun (m, _) => { msg := m, err := some (unhex h) }
+  | _ => none
+
+def parseScript (ts : List String) : List HRes :=
+  (splitSemi ts).filterMap fun r => if r.isEmpty then none else parseResult r
+
+/-- float table "f <tokhex>=<bits16>" entries; tokens absent from the table do not parse as floats -/
+def parseFloatTable (ts : List String) : List (Bytes × UInt64) :=
+  ts.filterMap fun t =>
+    match t.splitOn "=" with
+    | [k, v] => some (unhex k, (unhexChars v.toList).foldl (fun acc b => acc * 256 + b.toUInt64) 0)
+    | _ => none
+
+structure ServeCase where
+  pw : Option Bytes := none
+  noHandler : Bool := false
+  trace : Bool := false
+  blk : Bool := false
+  segs : List Bytes := []
+  script : List HRes := []
+  floats : List (Bytes × UInt64) := []
+
+def parseServeCase (ts : List String) : ServeCase :=
+  let secs := splitBar ts
+  let cfg := secs.headD []
+  let c : ServeCase := cfg.foldl (fun c t =>
+    if t.startsWith "pw=" then { c with pw := some (unhex (t.drop 3).toString) }
+    else if t == "nohandler" then { c with noHandler := true }
+    else if t == "trace" then { c with trace := true }
+    else if t == "blk" then { c with blk := true }
+    else c) {}
+  { c with segs := (secs.getD 1 []).map unhex, script := parseScript (secs.getD 2 []),
+           floats := parseFloatTable (secs.getD 3 []) }
+
+def countWr : List Ev → Nat
+  | [] => 0
+  | .wr _ :: es => countWr es + 1
+  | _ :: es => countWr es
+
+def countRoot : List Ev → Nat
+  | [] => 0
+  | .rootStart :: es => countRoot es + 1
+  | _ :: es => countRoot es
+
+def runServeCase (c : ServeCase) : String :=
+  let pf : FloatOracle := fun tok => c.floats.lookup tok
+  let srv : SrvSt := { authPw := c.pw, hasHandler := !c.noHandler,
+                       config := (match c.pw with | some p => [(b!"requirepass", p)] | none => []) ++ [(b!"port", b!"6379")] }
+  let input := c.segs.flatten
+  let evs := serve pf srv c.pw.isSome input c.script
+  let toks := showTrace c.trace evs {}
+  let blk := if c.blk then
+      let ends := valueEnds (input.length + 1) input 0
+      let served := countWr evs
+      let quit := countRoot evs == served
+      " # B " ++ String.intercalate " " ((blockCounts ends served quit (cumulative (c.segs.map List.length) 0)).map toString)
+    else ""
+  String.intercalate " " toks ++ blk
+
 def handleLine (toks : List String) : String :=
   match toks with
   | "enc" :: ts =>
@@ -48,6 +128,7 @@ def handleLine (toks : List String) : String :=
           | _ => "none"
         s!"enc={hex b} back={back} reenc={re}"
     | none => "bad-case"
+  | "serve" :: ts => runServeCase (parseServeCase ts)
   | "chunks" :: ts => streamOutcome ((afterBar ts).map unhex) 1048576
   | "hostile" :: hs => streamOutcome (hs.map unhex) 1048576
   | ["ctor", "int", n] =>
